@@ -74,19 +74,20 @@ class UserFunction:
 
         f_defaults = inspect.getfullargspec(self.fun).defaults
         f_kwonlyargs = inspect.getfullargspec(self.fun).kwonlyargs
-        # f_kwonlydefaults = inspect.getfullargspec(self.fun).kwonlydefaults
-        # NOTE: By above check, there should not be kwonlyargs. However, we still catch
-        # this case here.
+        f_kwonlydefaults = inspect.getfullargspec(self.fun).kwonlydefaults
+        # keyword-only arguments (def f(x, *, y=1)) are passed by name like all others
         self.args = f_args + f_kwonlyargs
 
-        # defaults always align at the end of the args
+        # the positional defaults always align at the end of the positional args
+        # (not at the end of args + keyword-only args)
         self.defaults = {}
         if not f_defaults is None:
             self.defaults = {
-                self.args[-i]: f_defaults[-i] for i in range(len(f_defaults), 0, -1)
+                f_args[-i]: f_defaults[-i] for i in range(len(f_defaults), 0, -1)
             }
-        # if not f_kwonlydefaults is None:
-        #    self.defaults.update(f_kwonlydefaults)
+        # keyword-only arguments carry their defaults by name
+        if not f_kwonlydefaults is None:
+            self.defaults.update(f_kwonlydefaults)
 
     def __call__(self, args={}, vectorize=False):
         """To evalute the function. Will automatically extract the needed arguments
